@@ -161,16 +161,14 @@ func checkRoundTrip(c *RTCase) (vs []Viol, info caseInfo) {
 	defer r.Close()
 
 	// (a) forward iteration
-	if ev.Flag("sst_forward_exact") {
+	if c.wants("forward", "sst_forward_exact") {
 		it := r.NewIterator()
 		it.SeekToFirst()
 		walk(v, it, rows, l, 0, -1, "forward", "SeekToFirst+Next")
-	} else {
-		ev.R().Exclude("sst_forward_exact")
 	}
 
 	// (b2) SeekToLast
-	if ev.Flag("sst_seek_last") {
+	if c.wants("seeklast", "sst_seek_last") {
 		it := r.NewIterator()
 		it.SeekToLast()
 		last := len(rows) - 1
@@ -184,14 +182,12 @@ func checkRoundTrip(c *RTCase) (vs []Viol, info caseInfo) {
 				v.add("seeklast:next_still_valid", "SeekToLast then Next: still valid at %s", short(it.Key()))
 			}
 		}
-	} else {
-		ev.R().Exclude("sst_seek_last")
 	}
 
 	// (b) Seek
 	targets := c.allTargets(rows, l)
 	info.targets = len(targets)
-	if ev.Flag("sst_seek") {
+	if c.wants("seek", "sst_seek") {
 		var shared *sstable.Iterator
 		if c.Reuse {
 			shared = r.NewIterator()
@@ -247,15 +243,12 @@ func checkRoundTrip(c *RTCase) (vs []Viol, info caseInfo) {
 			}
 			walk(v, it, rows, l, exp, limit, "seek:"+tclass+":suffix", what+" then Next")
 		}
-	} else {
-		ev.R().Exclude("sst_seek")
 	}
 
 	// (c) point lookups
 	multi := l != nil && len(l.Blocks) > 1
 	switch {
-	case !ev.Flag("sst_get"):
-		ev.R().Exclude("sst_get")
+	case !c.wants("get", "sst_get"):
 	case multi && !ev.Flag("sst_get_multiblock"):
 		ev.R().Exclude("sst_get_multiblock")
 	default:
